@@ -10,7 +10,7 @@
 use std::collections::BTreeMap;
 use std::net::SocketAddr;
 
-use p2panda_core::SigningKey;
+use p2panda_core::{Signature, SigningKey};
 use p2panda_core::timestamp::{HybridTimestamp, LamportTimestamp, Timestamp};
 use p2panda_net::addrs::{
     NodeInfo, NodeTransportInfo, TransportAddress, TransportInfo, TrustedTransportInfo, UnsignedTransportInfo,
@@ -93,36 +93,58 @@ fn concretise(rec: &Value, keys: &mut Keys, encoding: u64) -> (NodeId, Transport
     let ts = rec["ts"].as_u64().expect("rec.ts");
     let kind = rec["kind"].as_str().expect("rec.kind");
     let forge = rec["forge"].as_str().expect("rec.forge");
+    let addrs = rec["addrs"].as_u64().expect("rec.addrs");
     let node_id = keys.id(node);
     let other = keys.id("__other__");
     let tag = tag_of(id);
     let timestamp = hybrid(ts, encoding);
+    // the address list the record finally carries: none ("I am not reachable") or one
+    let list = |n: u64, owner: NodeId, tag: u64| -> Vec<TransportAddress> { (0..n).map(|i| address(owner, tag + i)).collect() };
+    let signed_by = |key: &SigningKey, timestamp: HybridTimestamp, addresses: Vec<TransportAddress>| {
+        UnsignedTransportInfo { timestamp, addresses }.sign(key).expect("sign")
+    };
     let info = match (kind, forge) {
-        ("auth", "none") => {
-            let unsigned = UnsignedTransportInfo { timestamp, addresses: vec![address(node_id, tag)] };
-            TransportInfo::Authenticated(unsigned.sign(&keys.key(node)).expect("sign"))
-        }
-        ("auth", "wrong_signer") => {
-            let unsigned = UnsignedTransportInfo { timestamp, addresses: vec![address(node_id, tag)] };
-            TransportInfo::Authenticated(unsigned.sign(&keys.key("__other__")).expect("sign"))
+        ("auth", "none") => TransportInfo::Authenticated(signed_by(&keys.key(node), timestamp, list(addrs, node_id, tag))),
+        ("auth", "wrong_signer") => TransportInfo::Authenticated(signed_by(&keys.key("__other__"), timestamp, list(addrs, node_id, tag))),
+        ("auth", "bad_sig") => {
+            let mut signed = signed_by(&keys.key(node), timestamp, list(addrs, node_id, tag));
+            let mut bytes = signed.signature.to_bytes();
+            bytes[(tag % 64) as usize] ^= 0x01;
+            signed.signature = Signature::from_bytes(&bytes);
+            TransportInfo::Authenticated(signed)
         }
         ("auth", "tampered_ts") => {
             // genuinely signed with an OLD timestamp, then post-dated to `ts`
-            let unsigned = UnsignedTransportInfo { timestamp: hybrid(0, encoding), addresses: vec![address(node_id, tag)] };
-            let mut signed = unsigned.sign(&keys.key(node)).expect("sign");
+            let mut signed = signed_by(&keys.key(node), hybrid(0, encoding), list(addrs, node_id, tag));
             signed.timestamp = timestamp;
             TransportInfo::Authenticated(signed)
         }
-        ("auth", "tampered_addr") => {
-            let unsigned = UnsignedTransportInfo { timestamp, addresses: vec![address(node_id, tag)] };
-            let mut signed = unsigned.sign(&keys.key(node)).expect("sign");
+        ("auth", "addr_removed") => {
+            assert_eq!(addrs, 0, "addr_removed ends without addresses");
+            let mut signed = signed_by(&keys.key(node), timestamp, list(1, node_id, tag));
+            signed.addresses.clear();
+            TransportInfo::Authenticated(signed)
+        }
+        ("auth", "addr_added") => {
+            assert_eq!(addrs, 1, "addr_added ends with one address");
+            let mut signed = signed_by(&keys.key(node), timestamp, vec![]);
+            signed.addresses.push(address(node_id, tag));
+            TransportInfo::Authenticated(signed)
+        }
+        ("auth", "addr_changed") => {
+            assert_eq!(addrs, 1, "addr_changed keeps one address");
+            let mut signed = signed_by(&keys.key(node), timestamp, list(1, node_id, tag));
             signed.addresses = vec![address(node_id, tag ^ 0x55)];
             TransportInfo::Authenticated(signed)
         }
-        ("trusted", "none") => TransportInfo::Trusted(TrustedTransportInfo { timestamp, addresses: vec![address(node_id, tag)] }),
-        ("trusted", "id_mismatch") => TransportInfo::Trusted(TrustedTransportInfo { timestamp, addresses: vec![address(other, tag)] }),
+        ("trusted", "none") => TransportInfo::Trusted(TrustedTransportInfo { timestamp, addresses: list(addrs, node_id, tag) }),
+        ("trusted", "id_mismatch") => {
+            assert_eq!(addrs, 1, "id_mismatch needs an address");
+            TransportInfo::Trusted(TrustedTransportInfo { timestamp, addresses: vec![address(other, tag)] })
+        }
         other => panic!("unknown record class {other:?}"),
     };
+    assert_eq!(info.len() as u64, addrs, "harness: record {id} carries the modelled number of addresses");
     (node_id, info)
 }
 
@@ -135,10 +157,13 @@ fn reply_of<E>(r: &Result<bool, E>) -> &'static str {
 }
 
 /// Which abstract record is stored (by equality with the concrete infos handed in so far).
-fn stored_id(info: Option<&TransportInfo>, known: &[(String, TransportInfo)]) -> String {
+/// `known`: (record id, node it was inserted for, concrete info). Only records handed in for THIS
+/// node are candidates: an info without addresses has no node-specific content, so equal values can
+/// exist for different nodes.
+fn stored_id(node: &str, info: Option<&TransportInfo>, known: &[(String, String, TransportInfo)]) -> String {
     match info {
         None => "none".into(),
-        Some(t) => known.iter().find(|(_, k)| k == t).map(|(id, _)| id.clone()).unwrap_or_else(|| "unknown".into()),
+        Some(t) => known.iter().find(|(_, n, k)| n == node && k == t).map(|(id, _, _)| id.clone()).unwrap_or_else(|| "unknown".into()),
     }
 }
 
@@ -180,10 +205,10 @@ fn replay(args: &Args) {
         let only_arrivals = steps.iter().all(|s| s["call"] == "InsertTransportInfo");
         if only_arrivals {
             let mut infos: BTreeMap<String, NodeInfo> = node_names.iter().map(|n| (n.clone(), NodeInfo::new(keys.id(n)))).collect();
-            let mut known: Vec<(String, TransportInfo)> = Vec::new();
+            let mut known: Vec<(String, String, TransportInfo)> = Vec::new();
             for (k, s) in steps.iter().enumerate() {
                 let (_, info) = concretise(&s["rec"], &mut keys, encoding);
-                known.push((s["rec"]["id"].as_str().unwrap().to_string(), info.clone()));
+                known.push((s["rec"]["id"].as_str().unwrap().to_string(), s["rec"]["node"].as_str().unwrap().to_string(), info.clone()));
                 let node = s["rec"]["node"].as_str().unwrap();
                 let r = vh_common::catch(|| infos.get_mut(node).unwrap().update_transports(info));
                 let r = match r {
@@ -200,7 +225,7 @@ fn replay(args: &Args) {
                     bad = Some(format!("step {k}: update_transports({}) replied {got_reply}, spec says {want_reply}", s["rec"]["id"]));
                 }
                 for n in &node_names {
-                    let got = stored_id(infos[n].transports.as_ref(), &known);
+                    let got = stored_id(n, infos[n].transports.as_ref(), &known);
                     let want = s["stored"][n].as_str().unwrap();
                     if got != want && bad.is_none() {
                         bad = Some(format!("step {k}: after update_transports({}) node {n} holds {got}, spec says {want}", s["rec"]["id"]));
@@ -222,10 +247,10 @@ fn replay(args: &Args) {
         }
         let ab = book.as_ref().unwrap();
         let res: Result<Option<(String, String)>, String> = rt.block_on(async {
-            let mut known: Vec<(String, TransportInfo)> = Vec::new();
+            let mut known: Vec<(String, String, TransportInfo)> = Vec::new();
             for (k, s) in steps.iter().enumerate() {
                 let (node_id, info) = concretise(&s["rec"], &mut keys, encoding);
-                known.push((s["rec"]["id"].as_str().unwrap().to_string(), info.clone()));
+                known.push((s["rec"]["id"].as_str().unwrap().to_string(), s["rec"]["node"].as_str().unwrap().to_string(), info.clone()));
                 let call = s["call"].as_str().unwrap();
                 let got_reply = match call {
                     "InsertTransportInfo" => reply_of(&ab.insert_transport_info(node_id, info).await).to_string(),
@@ -247,7 +272,7 @@ fn replay(args: &Args) {
                 }
                 for n in &node_names {
                     let ni = ab.node_info(keys.id(n)).await.map_err(|e| format!("node_info failed: {e}"))?;
-                    let got = stored_id(ni.as_ref().and_then(|x| x.transports.as_ref()), &known);
+                    let got = stored_id(n, ni.as_ref().and_then(|x| x.transports.as_ref()), &known);
                     let want = s["stored"][n].as_str().unwrap();
                     if got != want {
                         let detail = format!("step {k}: after {call}({}) the book holds {got} for {n}, spec says {want}", s["rec"]["id"]);
@@ -283,14 +308,14 @@ fn replay(args: &Args) {
                     (s["rec"]["id"].as_str().unwrap().to_string(), id, info)
                 })
                 .collect();
-            let known: Vec<(String, TransportInfo)> = concrete.iter().map(|(i, _, t)| (i.clone(), t.clone())).collect();
+            let known: Vec<(String, String, TransportInfo)> = concrete.iter().zip(steps.iter()).map(|((i, _, t), s)| (i.clone(), s["rec"]["node"].as_str().unwrap().to_string(), t.clone())).collect();
             let finals = steps.last().unwrap()["stored"].clone();
             let r: Result<Option<String>, String> = rt.block_on(async {
                 let calls = concrete.iter().map(|(_, id, info)| ab.insert_transport_info(*id, info.clone()));
                 let _ = futures_util::future::join_all(calls).await;
                 for n in &node_names {
                     let ni = ab.node_info(ckeys.id(n)).await.map_err(|e| format!("node_info failed: {e}"))?;
-                    let got = stored_id(ni.as_ref().and_then(|x| x.transports.as_ref()), &known);
+                    let got = stored_id(n, ni.as_ref().and_then(|x| x.transports.as_ref()), &known);
                     let want = finals[n].as_str().unwrap();
                     if got != want {
                         return Ok(Some(format!("after {} concurrent insert_transport_info calls the book holds {got} for {n}, the newest authentic record is {want}", concrete.len())));
@@ -340,7 +365,7 @@ fn classify(step: &Value, _detail: &str) -> String {
 // Record
 
 fn rec_json(id: &str, node: &str, info: &TransportInfo, kind: &str, forge: &str) -> Value {
-    json!({"id": id, "node": node, "ts": rank(info.timestamp()), "kind": kind, "forge": forge})
+    json!({"id": id, "node": node, "ts": rank(info.timestamp()), "kind": kind, "addrs": info.len(), "forge": forge})
 }
 
 fn record(args: &Args) {
@@ -366,19 +391,36 @@ fn record(args: &Args) {
         let mut pool: Vec<Value> = Vec::new();
         for node in &node_names {
             for i in 0..rng.range(2, 12) {
-                let (kind, forge) = match rng.below(12) {
-                    0 => ("auth", "wrong_signer"),
-                    1 => ("auth", "tampered_ts"),
-                    2 => ("auth", "tampered_addr"),
-                    3 => ("trusted", "id_mismatch"),
-                    4 | 5 | 6 => ("trusted", "none"),
-                    _ => ("auth", "none"),
+                // (kind, forge, addresses): every forgery class with and without addresses where it can
+                let (kind, forge, addrs) = match rng.below(24) {
+                    0 => ("auth", "wrong_signer", 1),
+                    1 => ("auth", "wrong_signer", 0),
+                    2 => ("auth", "tampered_ts", 1),
+                    3 => ("auth", "tampered_ts", 0),
+                    4 => ("auth", "bad_sig", 1),
+                    5 => ("auth", "bad_sig", 0),
+                    6 => ("auth", "addr_removed", 0),
+                    7 => ("auth", "addr_added", 1),
+                    8 => ("auth", "addr_changed", 1),
+                    9 => ("trusted", "id_mismatch", 1),
+                    10 | 11 | 12 => ("trusted", "none", 1),
+                    13 => ("trusted", "none", 0),
+                    14 | 15 | 16 => ("auth", "none", 0),
+                    _ => ("auth", "none", 1),
                 };
-                pool.push(json!({"id": format!("{node}r{i}"), "node": node, "ts": rng.range(1, 14), "kind": kind, "forge": forge}));
+                // forged records tend to claim the newest timestamps
+                let ts = if forge != "none" && rng.chance(1, 2) { rng.range(10, 16) } else { rng.range(1, 14) };
+                // records without addresses have no content besides the timestamp: keep genuine ones
+                // of a node distinguishable (the stored record is identified by equality)
+                let mut ts = ts;
+                while addrs == 0 && forge == "none" && pool.iter().any(|p: &Value| p["node"] == node.as_str() && p["kind"] == kind && p["addrs"] == 0 && p["forge"] == "none" && p["ts"] == ts) {
+                    ts += 1;
+                }
+                pool.push(json!({"id": format!("{node}r{i}"), "node": node, "ts": ts, "kind": kind, "addrs": addrs, "forge": forge}));
             }
         }
         let calls = rng.range(pool.len() as u64, pool.len() as u64 * 2);
-        let mut known: Vec<(String, TransportInfo)> = Vec::new();
+        let mut known: Vec<(String, String, TransportInfo)> = Vec::new();
         let mut saw_forged = false;
         let mut saw_older = false;
         let ok: Result<(), String> = rt.block_on(async {
@@ -386,8 +428,8 @@ fn record(args: &Args) {
                 let r = rng.pick(&pool).clone();
                 let (node_id, info) = concretise(&r, &mut keys, encoding);
                 let id = r["id"].as_str().unwrap().to_string();
-                if !known.iter().any(|(k, _)| *k == id) {
-                    known.push((id.clone(), info.clone()));
+                if !known.iter().any(|(k, _, _)| *k == id) {
+                    known.push((id.clone(), r["node"].as_str().unwrap().to_string(), info.clone()));
                 }
                 let rec = rec_json(&id, r["node"].as_str().unwrap(), &info, r["kind"].as_str().unwrap(), r["forge"].as_str().unwrap());
                 out.eval();
@@ -412,7 +454,7 @@ fn record(args: &Args) {
                 let mut boot = serde_json::Map::new();
                 for n in &node_names {
                     let ni = ab.node_info(keys.id(n)).await.map_err(|e| format!("node_info failed: {e}"))?;
-                    stored.insert(n.clone(), json!(stored_id(ni.as_ref().and_then(|x| x.transports.as_ref()), &known)));
+                    stored.insert(n.clone(), json!(stored_id(n, ni.as_ref().and_then(|x| x.transports.as_ref()), &known)));
                     boot.insert(n.clone(), json!(ni.as_ref().map(|x| x.bootstrap).unwrap_or(false)));
                 }
                 trace.event(json!({"ev": call, "rec": rec, "flag": flag, "reply": reply, "stored": stored, "boot": boot}));
